@@ -665,10 +665,16 @@ class Interp:
                 if isinstance(a0, type) and (isinstance(a1, type) or (isinstance(a1, tuple) and all(isinstance(x, type) for x in a1))):
                     return issubclass(a0, a1)
                 raise Unsupported(e, "(issubclass on a model value)")
-            if nm == "defaultdict" and len(e.args) == 1 and isinstance(e.args[0], ast.Name) and e.args[0].id in ("list", "set", "dict"):
+            if nm == "defaultdict" and len(e.args) in (1, 2) and isinstance(e.args[0], ast.Name) and e.args[0].id in ("list", "set", "dict"):
                 import collections as _c
 
-                return _c.defaultdict({"list": list, "set": set, "dict": dict}[e.args[0].id])
+                dd = _c.defaultdict({"list": list, "set": set, "dict": dict}[e.args[0].id])
+                if len(e.args) == 2:
+                    init = self.ev(e.args[1])
+                    if not isinstance(init, dict):
+                        raise Unsupported(e, "(defaultdict initialiser)")
+                    dd.update(init)
+                return dd
             if nm == "isinstance" and len(e.args) == 2:
                 v0 = self.ev(e.args[0])
                 classes0 = e.args[1].elts if isinstance(e.args[1], ast.Tuple) else [e.args[1]]
@@ -732,6 +738,11 @@ class Interp:
                         return v(*self.elts(e.args), **{k.arg: self.ev(k.value) for k in e.keywords if k.arg})
                 return Opaque(meth)
             args = self.elts(e.args)
+            if (recv is dict or recv is __import__("collections").OrderedDict) and meth == "fromkeys" and len(args) == 1 and isinstance(args[0], (list, tuple, set, frozenset, dict)):
+                try:
+                    return dict.fromkeys(args[0])
+                except TypeError:
+                    raise PyRaise("TypeError", None)
             if recv is set and meth in ("intersection", "union") and all(isinstance(a, (set, frozenset)) for a in args) and args:
                 return getattr(set, meth)(*args)
             if isinstance(recv, dict) and meth == "update" and len(args) == 1 and isinstance(args[0], dict):
